@@ -180,7 +180,12 @@ Inductive sys_case :=
 (* the broker answers k pings and withholds the next answer; Disconnect is called while that
    ping is in flight (it then fails at once with the closed transport) *)
 | SysDisc (I T : N) (k : nat)
-    (pings dials : nat) (graceful : bool) (err : impl_res).
+    (pings dials : nat) (graceful : bool) (err : impl_res)
+(* PingInterval I and Timeout T differ; the broker answers every PINGREQ after delay d (< T);
+   observed when [need] pings were answered (or the connection was closed / replaced / the
+   scenario's limit passed); times = arrival of each PINGREQ since the CONNACK was sent *)
+| SysPeer (I T d : N) (need : nat)
+    (answered dials closes : nat) (err : impl_res) (times : list N).
 
 Definition st_fresh : clients := fun _ => mk_cli None false.
 
@@ -201,6 +206,11 @@ Definition sys_spec_ok (c : sys_case) : bool :=
       Nat.eqb dials 2 && negb closed2 && impl_res_eqb err2 INil && Nat.leb 1 pings2
   | SysDisc iv tv k pings dials graceful err =>
       graceful && Nat.eqb dials 1 && impl_res_eqb err INil
+  | SysPeer iv tv d need answered dials closes err times =>
+      (* a peer that answers within the timeout is kept, pings go out every interval (enough of
+         them within the scenario's limit), none before its tick *)
+      Nat.leb need answered && Nat.eqb dials 1 && Nat.eqb closes 0 && impl_res_eqb err INil
+      && ticks_ok iv times
   end.
 
 (* model: the connection's keep-alive run + the goroutine's reaction + the loop's reaction *)
@@ -244,6 +254,15 @@ Definition sys_model_ok (c : sys_case) : bool :=
           let st := ka_react 1 o false true st_fresh in
           Nat.eqb pings (KeepAlive.pings o) && impl_res_eqb err (err_expect (cs_err (st 1%nat)))
           && Nat.eqb dials 1 && graceful
+      end
+  | SysPeer iv tv d need answered dials closes err times =>
+      match rc_keepalive_peer (mk_ro iv tv) (repeat (Some d) (length times)) with
+      | None => false
+      | Some o =>
+          let st := ka_react 1 o false false st_fresh in
+          impl_res_eqb err (err_expect (cs_err (st 1%nat))) && Bool.eqb (Nat.eqb closes 0) (negb (cs_closed (st 1%nat)))
+          && (match loop_react 1 st with LWait => Nat.eqb dials 1 | _ => false end)
+          && all_ge (ko_starts o) times && Nat.leb need answered
       end
   end.
 
